@@ -290,11 +290,8 @@ class RelativeFilterQuery(FilterQuery):
 
     def evaluate(self, context: FilterContext) -> object:
         """Evaluate the filter expression in the given _context_."""
-        if not isinstance(context.current, (list, dict)):
-            if self.query.empty():
-                return context.current
-            return JSONPathNodeList()
-
+        # A relative query always results in a node list, whatever the
+        # current node's value is.
         return JSONPathNodeList(self.query.find(context.current))
 
 
